@@ -93,6 +93,48 @@ def run(ctx, config):
         r2.bad("K4:evbuffer_chain_new_membuf:unchecked-size", "%s:%d" % (g.file, g.line), g.name, "size test missing before rounding up")
     rules.append(r2)
 
+    # ---- a decision about the chain list must be taken on current values: a local snapshot of list fields that is tested after
+    #      one of those fields was stored (directly, same object) is stale
+    r2c = Rule("C12-stale", "K8", "a local computed from chain-list fields is not used as a branch condition after one of those fields was stored", floor=0)
+    WATCH = ("evbuffer_chain.off", "evbuffer_chain.misalign", "evbuffer.first", "evbuffer.last", "evbuffer.last_with_datap", "evbuffer.total_len")
+    for fn in M.fns:
+        for d, lhs, op, rhs in fn.stores():
+            l = strip(lhs)
+            if not (is_e(l, "var") and l[2] == "local" and op == "=" and d.e[0] in ("asg", "decl")):
+                continue
+            top = strip(rhs)
+            # only *decisions* (comparison / logical results) are snapshots in this sense; cursors such as `chain = buf->first` are not
+            if not ((is_e(top, "bin") and top[1] in ("==", "!=", "<", ">", "<=", ">=", "&&", "||")) or (is_e(top, "un") and top[1] == "!")):
+                continue
+            reads = [(q[2], key(strip(q[1]))) for q in walk(rhs) if is_e(q, "fld") and q[2] in WATCH]
+            if not reads:
+                continue
+            # uses as (part of) a branch condition
+            for b in fn.branch_blocks():
+                if not any(is_e(q, "var") and q[1] == l[1] for q in walk(b.term["cond"])):
+                    continue
+                if not (fn.dominates(d.bid, b.id) and b.id != d.bid):
+                    continue
+                # only this definition reaches?
+                anchor = fn.blocks[b.id].elems[-1] if fn.blocks[b.id].elems else None
+                stale = None
+                for s_, lhs2, op2, rhs2 in fn.stores():
+                    l2 = strip(lhs2)
+                    if is_e(l2, "fld") and (l2[2], key(strip(l2[1]))) in reads and s_ is not d:
+                        # store on a path def -> branch
+                        if fn.path_avoiding(d.pos(), lambda y, s_=s_: y is s_, lambda y: False) is not None and b.id in fn.reach_blocks(s_.bid) and \
+                                b.id in fn.segment_blocks(d.bid, b.id) | {b.id} and s_.bid in fn.segment_blocks(d.bid, b.id) | {d.bid}:
+                            if s_.bid == d.bid and s_.idx < d.idx:
+                                continue
+                            stale = s_
+                r2c.inst((fn.name, d.n, b.id), {"fn": fn.name, "snapshot": show(d.e)[:70], "tested_at": "%s:%d" % (fn.file, b.term["loc"][0]),
+                                              "field_stored_in_between": show(stale.e)[:60] if stale else None})
+                if stale is not None:
+                    r2c.bad("K8:%s:stale-snapshot:%s" % (fn.name, l[1]), "%s:%d" % (fn.file, b.term["loc"][0]), fn.name,
+                            "`%s` was computed at line %d from %s, but `%s` (line %d) changes that field before the value is tested here: the decision is taken on a stale state"
+                            % (l[1], d.line, sorted(set(x[0] for x in reads)), show(stale.e)[:50], stale.line))
+    rules.append(r2c)
+
     r3 = Rule("C12-private", "K2", "the chain list and length fields of evbuffers are written only inside buffer.c", floor=110)
     for fn in P.all_fns:
         for el, lhs, op, rhs in fn.stores():
